@@ -95,9 +95,11 @@ Print Assumptions C11_norm_sound.
 (* One pass of the CURRENT simplifier (after the fix commits), tree level, by induction over the walker:
    for every tree of the capture-free, flag-free fragment (in_fragment: the state-free elaboration succeeds)
    that avoids the guards (avoids_defects: decidable, syntactic, mirrors the walker), the emitted tree has the
-   same groups (none) and is observationally equivalent: same FindStringSubmatchIndex on every subject. *)
+   same groups (none), is observationally equivalent (same FindStringSubmatchIndex on every subject) and stays
+   inside the domain in which the matcher model is Go's semantics (model_exact: every loop body consumes). *)
 Theorem C11_simplify_sound_partial : forall e, in_fragment e = true -> avoids_defects e = true ->
   exists x y, den_top e = Some (x, 0, []) /\ den_top (simp_ast e) = Some (y, 0, []) /\ req y x /\
+              model_exact (simp_ast e) = true /\
               forall subject, find_go (simp_ast e) subject = find_go e subject.
 Proof. exact simplify_sound_fragment. Qed.
 Print Assumptions C11_simplify_sound_partial.
